@@ -1,3 +1,4 @@
 #![allow(clippy::all)]
 //! Shared harness pieces for the model crate: a deterministic market (`market`).
 pub mod market;
+pub mod perp;
